@@ -23,32 +23,57 @@ open Biogo.Processor
 
 variable {c : Cfg} {s : St}
 
-/-- "without panic": no schedule makes a worker close `out` twice or send on the closed `out`. -/
+/-- "without panic": no schedule makes a worker close `out` twice or send on the closed `out`
+    (any number of producers and collectors, with or without `Stop`). -/
 theorem no_panic (hfix : c.fixed = true) (ht : 0 < c.threads) (hr : Reach (sys c) s) :
     s.crashed = none :=
-  (inv_reach hfix ht s hr).nocrash
+  (inv_reach hfix ht s hr).a.nocrash
 
 /-- "the result channel is closed exactly once": never more than once, and it is closed exactly
     when every worker has exited (so also: not while a worker can still send). -/
 theorem out_closed_exactly_once (hfix : c.fixed = true) (ht : 0 < c.threads) (hr : Reach (sys c) s) :
     s.closes ≤ 1 ∧ (s.closes = 1 ↔ allDone s = true) := by
   have hI := inv_reach hfix ht s hr
-  have h := hI.closes_eq
+  have h := hI.a.closes_eq
   rw [allDone_iff hI]
   constructor
   · rw [h]; split <;> omega
   · rw [h]; split <;> simp_all
 
 /-- "every operation submitted produces exactly one result carrying that operation's value or
-    error", as an invariant of every reachable state: the results that exist anywhere (held by a
-    worker, in `out`, being handed over, delivered) are, as a multiset, exactly the results of the
-    operations taken from the queue so far, and the operations taken are a prefix of those
-    submitted (`ops = taken ++ queued ++ not yet submitted`).  Holds also with `Stop` and with
-    panicking operations (a recovered panic yields exactly one error result). -/
+    error", as an invariant of every reachable state, for any number of producers and
+    collectors: the results that exist anywhere (held by a worker, in `out`, being handed over to
+    a waiting collector, received by some collector) are, as a multiset, exactly the results of
+    the operations taken from the queue so far; the queue is FIFO (`taken ++ queued` is the
+    sequence of submissions); every producer's operations were submitted in its own order
+    (`submitted by p ++ not yet submitted by p = prods[p]`); and nothing is lost or invented
+    (`taken ++ queued ++ not yet submitted` is a permutation of all operations).  Holds also with
+    `Stop` and with panicking operations (a recovered panic yields exactly one error result). -/
 theorem each_op_one_result (hfix : c.fixed = true) (ht : 0 < c.threads) (hr : Reach (sys c) s) :
-    (results s).Perm (s.taken.map eval) ∧ s.taken ++ s.inq ++ s.todo = c.ops := by
+    (results s).Perm (s.taken.map eval) ∧
+    s.taken ++ s.inq = s.subm.map Prod.snd ∧
+    (∀ p : Nat, submittedBy s p ++ s.todo.getD p [] = c.prods.getD p []) ∧
+    (s.taken ++ s.inq ++ s.todo.flatten).Perm c.ops := by
   have hI := inv_reach hfix ht s hr
-  exact ⟨List.perm_iff_count.2 hI.counts, hI.order⟩
+  exact ⟨List.perm_iff_count.2 hI.b.counts, hI.b.fifo, hI.b.perprod, List.perm_iff_count.2 hI.b.mset⟩
+
+/-- the same with one producer, in the form of the first wave: the operations taken are a prefix
+    of those submitted, `ops = taken ++ queued ++ not yet submitted`, in order. -/
+theorem each_op_one_result_one_producer {ops : List Op} (hp : c.prods = [ops])
+    (hfix : c.fixed = true) (ht : 0 < c.threads) (hr : Reach (sys c) s) :
+    (results s).Perm (s.taken.map eval) ∧ s.taken ++ s.inq ++ s.todo.getD 0 [] = ops := by
+  have hI := inv_reach hfix ht s hr
+  refine ⟨List.perm_iff_count.2 hI.b.counts, ?_⟩
+  have h0 := hI.b.perprod 0
+  rw [hp] at h0
+  have hall : s.subm.filter (·.1 == 0) = s.subm := by
+    rw [List.filter_eq_self]
+    intro e he
+    have := hI.b.subm_ids e he
+    rw [hp] at this
+    simp at this; simp [this]
+  simp only [submittedBy, hall] at h0
+  rw [hI.b.fifo]; simpa using h0
 
 theorem held_nil_of_allDone (h : allDone s = true) : held s = [] := by
   simp only [held, allDone, List.all_eq_true] at *
@@ -57,20 +82,45 @@ theorem held_nil_of_allDone (h : allDone s = true) : held s = [] := by
   have := h pc hm
   cases pc <;> simp [WPc.isDone] at this; rfl
 
-/-- The final form: once the collector has seen `out` closed (no `Stop`, no panicking operation),
-    what it received is exactly one result per submitted operation. -/
-theorem each_op_one_result_final (hfix : c.fixed = true) (ht : 0 < c.threads) (hr : Reach (sys c) s)
-    (hseen : s.cpc = .closedSeen) (hstop : s.stop = false)
+/-- The final form: once every collector has seen `out` closed (at least one collector, no
+    `Stop`, no panicking operation), what the collectors received is, together, exactly one
+    result per submitted operation; the queue is drained and every producer has submitted
+    everything. -/
+theorem each_op_one_result_final (hfix : c.fixed = true) (ht : 0 < c.threads) (hn : 0 < c.ncoll)
+    (hr : Reach (sys c) s)
+    (hseen : allSeen s = true) (hstop : s.stop = false)
     (hnopan : c.ops.any Op.isPan = false) :
-    s.delivered.Perm (c.ops.map eval) ∧ s.inq = [] ∧ s.todo = [] := by
+    (allDelivered s).Perm (c.ops.map eval) ∧ s.inq = [] ∧ s.todo.flatten = [] := by
   have hI := inv_reach hfix ht s hr
-  obtain ⟨hq, hh, hcl⟩ := hI.seen_coh hseen
+  have hlt : 0 < s.cpcs.length := by rw [hI.c'.clen]; exact hn
+  have hseenk : ∀ (k : Nat) (pc : CPc), s.cpcs[k]? = some pc → pc = .closedSeen := by
+    intro k pc hk
+    simp only [allSeen, List.all_eq_true] at hseen
+    have := hseen pc (List.mem_of_getElem? hk)
+    simpa using this
+  have h0 : s.cpcs[0]? = some .closedSeen := by
+    have : s.cpcs[0]? = some s.cpcs[0] := by simp [hlt]
+    rw [this, hseenk 0 _ this]
+  obtain ⟨hq, hcl⟩ := hI.c'.seen_coh 0 h0
+  have hhand : handed s = [] := by
+    simp only [handed]
+    rw [List.filterMap_eq_nil_iff]
+    intro v hv
+    obtain ⟨k, hk, hget⟩ := List.getElem_of_mem hv
+    cases v with
+    | none => rfl
+    | some r =>
+      exfalso
+      have hg : s.handoff.getD k none = some r := by simp [List.getD_eq_getElem?_getD, hk, hget]
+      have h1 := hI.c'.ho_coh k (by rw [hg]; rfl)
+      have := hseenk k _ h1
+      cases this
   have hex : s.exited = c.threads := by
-    have := hI.closes_eq; rw [hcl] at this; split at this <;> simp_all
+    have := hI.a.closes_eq; rw [hcl] at this; split at this <;> simp_all
   have hall := (allDone_iff hI).2 hex
   -- some worker has exited, and the only possible reason is: queue closed and drained
   have hpos : 0 < nEx s.ws := by
-    have hlen := hI.len
+    have hlen := hI.a.len
     cases hws : s.ws with
     | nil => simp [hws] at hlen; omega
     | cons w rest =>
@@ -79,28 +129,43 @@ theorem each_op_one_result_final (hfix : c.fixed = true) (ht : 0 < c.threads) (h
         exact hall w (by simp [hws])
       cases w <;> simp [WPc.isDone] at hw
       simp [nEx, WPc.exiting]
+  have hmset := hI.b.mset
   have hsub : s.taken.any Op.isPan = false := by
-    have hord := hI.order
-    rw [← hord] at hnopan
-    simp only [List.any_append, Bool.or_eq_false_iff] at hnopan
-    exact hnopan.1.1
-  rcases hI.exit_why hpos with h | h | h
+    rw [Bool.eq_false_iff]
+    intro hany
+    rw [List.any_eq_true] at hany
+    obtain ⟨op, hop, hpan⟩ := hany
+    have hc := hmset op
+    have hpos' : 0 < (s.taken ++ s.inq ++ s.todo.flatten).count op := by
+      rw [List.count_pos_iff]; simp [hop]
+    rw [hc, List.count_pos_iff] at hpos'
+    have : c.ops.any Op.isPan = true := List.any_eq_true.2 ⟨op, hpos', hpan⟩
+    rw [hnopan] at this; cases this
+  rcases hI.a.exit_why hpos with h | h | h
   · simp [hstop] at h
   · obtain ⟨hclosed, hinq⟩ := h
-    have htodo := hI.closedTodo hclosed
-    have hord := hI.order
-    rw [hinq, htodo] at hord
-    simp at hord
+    have htodo : s.todo.flatten = [] := by
+      have := hI.b.closedTodo hclosed
+      simp only [allSubmitted, List.all_eq_true] at this
+      rw [List.flatten_eq_nil_iff]
+      intro l hl
+      simpa using this l hl
     refine ⟨?_, hinq, htodo⟩
-    have hperm := (each_op_one_result hfix ht hr).1
-    simp only [results, held_nil_of_allDone hall, hq, hh] at hperm
-    simpa [hord] using hperm
+    have hperm : (results s).Perm (s.taken.map eval) := List.perm_iff_count.2 hI.b.counts
+    simp only [results, held_nil_of_allDone hall, hq, hhand, List.nil_append, List.append_nil] at hperm
+    have hops : s.taken.Perm c.ops := by
+      apply List.perm_iff_count.2
+      intro x
+      have := hmset x
+      rw [hinq, htodo] at this
+      simpa using this
+    exact hperm.trans (hops.map eval)
   · rw [hsub] at h; cases h
 
 /-- "after the queue is closed all workers exit, Wait returns", progress half: every schedule is
     finite — each step of any actor strictly decreases the variant `mu`, so no run from the
     initial state has more than `mu c (init c)` steps
-    (= 5·|ops| + 3·threads + 4 + [close requested]). -/
+    (= 5·|ops| + 3·threads + 2·collectors + 2 + [close requested]). -/
 theorem shutdown_terminates (hfix : c.fixed = true) (ht : 0 < c.threads)
     {sched : List Actor} (h : run (sys c) (init c) sched = some s) :
     sched.length + mu c s ≤ mu c (init c) :=
@@ -110,21 +175,21 @@ theorem shutdown_terminates (hfix : c.fixed = true) (ht : 0 < c.threads)
     (inv_init c ht) h
 
 /-- "after the queue is closed all workers exit, Wait returns and the result channel is closed",
-    safety half: once `in` is closed, a state in which no worker and not the collector can move is
-    the clean final state — every worker has exited, `out` has been closed (once) and seen closed
-    by the collector, the wait group is released and `Wait` has returned or can return.  Together
-    with `shutdown_terminates`: every schedule that keeps running enabled actors ends there;
-    there is no deadlock and no livelock. -/
-theorem shutdown_clean (hfix : c.fixed = true) (ht : 0 < c.threads) (hr : Reach (sys c) s)
-    (hclosed : s.inClosed = true)
-    (hw : ∀ i, step c s (.worker i) = none) (hc : step c s .collector = none) :
-    allDone s = true ∧ s.closes = 1 ∧ s.crashed = none ∧ s.cpc = .closedSeen ∧
+    safety half: once `in` is closed, a state in which no worker and no collector can move (there
+    is at least one collector) is the clean final state — every worker has exited, `out` has been
+    closed (once) and seen closed by every collector, the wait group is released and `Wait` has
+    returned or can return.  Together with `shutdown_terminates`: every schedule that keeps
+    running enabled actors ends there; there is no deadlock and no livelock. -/
+theorem shutdown_clean (hfix : c.fixed = true) (ht : 0 < c.threads) (hn : 0 < c.ncoll)
+    (hr : Reach (sys c) s) (hclosed : s.inClosed = true)
+    (hw : ∀ i, step c s (.worker i) = none) (hc : ∀ k, step c s (.collector k) = none) :
+    allDone s = true ∧ s.closes = 1 ∧ s.crashed = none ∧ allSeen s = true ∧
     (s.waitReturned = true ∨ (step c s .waiter).isSome = true) := by
   have hI := inv_reach hfix ht s hr
-  obtain ⟨h1, h2, h3, h4⟩ := stuck_final hI hclosed hw hc
-  refine ⟨h1, h2, hI.nocrash, h4, ?_⟩
+  obtain ⟨h1, h2, h3, h4⟩ := stuck_final hn hI hclosed hw hc
+  refine ⟨h1, h2, hI.a.nocrash, h4, ?_⟩
   cases hwr : s.waitReturned
-  · right; simp [step, hI.nocrash, hwr, h3]
+  · right; simp [step, hI.a.nocrash, hwr, h3]
   · left; rfl
 
 /-- "Map returns one result per chunk with the chunks partitioning the input", the chunking:
@@ -148,14 +213,48 @@ theorem map_partition {α : Type} (xs : List α) (threads maxChunk : Nat)
   have := tiles_bounds xs.length cs 0 htiles p hp
   omega
 
-/-- Map's workers: with the chunk operations as the Processor's input (any evaluation `f` of a
-    chunk), the results that exist are one per chunk taken, for every schedule. -/
+/-- Map's workers: with the chunk operations as the one producer's input (any evaluation `f` of
+    a chunk), the results that exist are one per chunk taken, for every schedule. -/
 theorem map_one_result_per_chunk (n threads maxChunk : Nat) (f : Nat × Nat → Op)
-    (hc : c.ops = (chunks n (chunkSize n threads maxChunk)).map f)
+    (hc : c.prods = [(chunks n (chunkSize n threads maxChunk)).map f])
     (hfix : c.fixed = true) (ht : 0 < c.threads) (hr : Reach (sys c) s) :
     (results s).Perm (s.taken.map eval) ∧
-    s.taken ++ s.inq ++ s.todo = (chunks n (chunkSize n threads maxChunk)).map f := by
-  rw [← hc]; exact each_op_one_result hfix ht hr
+    s.taken ++ s.inq ++ s.todo.getD 0 [] = (chunks n (chunkSize n threads maxChunk)).map f :=
+  each_op_one_result_one_producer hc hfix ht hr
+
+/-- Quirk recorded in notes/C19.md (outside C19's statement, whose shutdown clause starts "after
+    the queue is closed"): `Map` never closes its private queue.  A Processor whose queue is never
+    closed keeps it open for ever, and its workers leave their loop only through `Stop` (which a
+    worker notices after finishing an operation, not while it waits for one) or a panicking
+    operation — so the workers that are idle when Map returns stay parked in their receive. -/
+theorem unclosed_queue_workers_stay (hfix : c.fixed = true) (ht : 0 < c.threads)
+    (hwc : c.wantClose = false) (hr : Reach (sys c) s) :
+    s.inClosed = false ∧ (0 < nEx s.ws → s.stop = true ∨ s.taken.any Op.isPan = true) := by
+  have hcl : s.inClosed = false := by
+    induction hr with
+    | init => rfl
+    | step hr' hs ih =>
+      have hA := (inv_reach hfix ht _ hr').a
+      have hs' : step c _ _ = some _ := hs
+      cases shape_of_step hfix hA hs' <;> first | exact ih | (rename_i hwc'; rw [hwc] at hwc'; cases hwc')
+  refine ⟨hcl, ?_⟩
+  intro hpos
+  rcases (inv_reach hfix ht s hr).a.exit_why hpos with h | h | h
+  · exact Or.inl h
+  · rw [hcl] at h; cases h.1
+  · exact Or.inr h
+
+open Biogo.Processor in
+/-- … the state Map leaves behind, in the model: both operations processed and collected, `Stop`
+    called, the queue still open: nobody can move, both workers are parked in `recv`, `out` is
+    not closed. -/
+example :
+    let c : Processor.Cfg := Processor.Cfg.single 2 0 1 [.val 1, .val 2] false true
+    let s := runSkip (Processor.sys c) (Processor.init c)
+      ((List.replicate 6 [Actor.producer 0, .worker 0, .worker 1, .collector 0]).flatten ++ [.stopper])
+    (allDelivered s).length = 2 ∧ s.stop = true ∧ s.ws = [.recv, .recv] ∧ s.closes = 0 ∧
+    (∀ a ∈ [Actor.worker 0, .worker 1, .producer 0, .collector 0, .stopper], Processor.step c s a = none) := by
+  decide
 
 end processor
 
@@ -168,27 +267,28 @@ variable {c : Promise.Cfg} {s : Promise.St}
 /-- "An immutable Promise takes the value of exactly one successful Fulfill": under every
     schedule at most one Fulfill/Fail reports success, exactly one once the promise holds
     anything, and a Fulfill that reported success has its value in the promise in every later
-    state. -/
+    state.  Any values: `Fulfill(nil)` is a legal call and the message `{nil, nil}` counts as
+    set (second wave; the first wave assumed non-nil values). -/
 theorem promise_single_assignment (hS : Scope c) (hr : Reach (Promise.sys c) s) :
     s.pcs.countP APc.isWin ≤ 1 ∧
     (cur s ≠ none → s.pcs.countP APc.isWin = 1) ∧
-    ∀ (i v : Nat), c.calls[i]? = some (.fulfill (some v)) → s.pcs[i]? = some (.done (.ferr none)) →
-      ∀ s', ReachFrom (Promise.sys c) s s' → cur s' = some ⟨some v, none⟩ := by
+    ∀ (i : Nat) (v : Option Nat), c.calls[i]? = some (.fulfill v) → s.pcs[i]? = some (.done (.ferr none)) →
+      ∀ s', ReachFrom (Promise.sys c) s s' → cur s' = some ⟨v, none⟩ := by
   have hI := Promise.inv_reach hS s hr
   refine ⟨?_, ?_, ?_⟩
   · cases hc : cur s with
     | none => rw [countP_all_start s.pcs (hI.unset hc)]; omega
-    | some r0 => rw [(hI.set_ r0 hc).2.1]; omega
+    | some r0 => rw [(hI.set_ r0 hc).1]; omega
   · intro hne
     cases hc : cur s with
     | none => exact absurd hc hne
-    | some r0 => exact (hI.set_ r0 hc).2.1
+    | some r0 => exact (hI.set_ r0 hc).1
   · intro i v hcall hpc s' hrf
     have hI' := Promise.inv_reach hS s' (hrf.reach hr)
     cases hc : cur s with
     | none => have := hI.unset hc i _ hpc; cases this
     | some r0 =>
-      have hcons := (hI.set_ r0 hc).2.2 i _ _ hcall hpc
+      have hcons := (hI.set_ r0 hc).2 i _ _ hcall hpc
       simp [consistent] at hcons
       subst hcons
       exact cur_stable hI hI' hrf hc
@@ -209,8 +309,8 @@ theorem other_fulfills_error_and_unchanged (hS : Scope c) (hr : Reach (Promise.s
   obtain ⟨pc, pc', hget, hset, hlt⟩ := step_pcs hstep
   have hlti := lt_of_get hget
   have hpc' : s'.pcs[i]? = some pc' := by rw [hset]; simp [hlti]
-  obtain ⟨_, hwin', hcons'⟩ := hI'.set_ r0 hcur'
-  obtain ⟨_, hwin, _⟩ := hI.set_ r0 hcur
+  obtain ⟨hwin', hcons'⟩ := hI'.set_ r0 hcur'
+  obtain ⟨hwin, _⟩ := hI.set_ r0 hcur
   have hc := hcons' i _ _ hcall hpc'
   cases pc' with
   | start => cases pc <;> simp [prank] at hlt
@@ -241,11 +341,11 @@ theorem waits_return_value (hS : Scope c) (hr : Reach (Promise.sys c) s)
     cases hc : cur s with
     | none => have := hI.unset hc i _ hpc; cases this
     | some r0 =>
-      have := (hI.set_ r0 hc).2.2 i _ _ hcall hpc
+      have := (hI.set_ r0 hc).2 i _ _ hcall hpc
       simp [consistent] at this; rw [this]
   refine ⟨fun s' hrf => cur_stable hI (Promise.inv_reach hS s' (hrf.reach hr)) hrf hcur, ?_⟩
   intro j r' hcj hpj
-  have := (hI.set_ r hcur).2.2 j _ _ hcj hpj
+  have := (hI.set_ r hcur).2 j _ _ hcj hpj
   simpa [consistent] using this
 
 /-- "without blocking forever / without deadlock": as long as some call has not returned and at
@@ -291,18 +391,20 @@ theorem seq_fulfill_failed (f : Flags) (v0 v : Option Nat) (e : ErrV) :
       (some ⟨v0, some e⟩, some (if f.relay then .cannotRelay else .failedPromise)) := by
   cases f with | mk m r l => cases m <;> cases r <;> cases l <;> rfl
 
-/-- Fail of an unset promise succeeds; Fail of a settled one reports false and changes nothing -/
+/-- Fail of an unset promise succeeds; Fail of a promise that holds a Result — whatever it is,
+    `Result{nil, nil}` after `Fulfill(nil)` included (fix 0095d35) — reports false and changes
+    nothing -/
 theorem seq_fail (v : Option Nat) (e : Option ErrV) :
     Promise.fail none v e = (some ⟨v, e⟩, true) ∧
-    ∀ r0 : Res, r0.settled = true → Promise.fail (some r0) v e = (some r0, false) :=
-  ⟨fail_unset v e, fun r0 h => fail_settled r0 h v e⟩
+    ∀ r0 : Res, Promise.fail (some r0) v e = (some r0, false) :=
+  ⟨fail_unset v e, fun r0 => fail_set r0 v e⟩
 
 /-- Recover: a recoverable promise is reset to the given value (or emptied when the value is
-    nil); on a non-recoverable promise it reports false — and, as the code stands, drops the
-    message (mirrored quirk) -/
+    nil); on a non-recoverable promise it reports false and leaves the promise as it is
+    (fix 5f9d169; as found the refused call dropped the message) -/
 theorem seq_recover (f : Flags) (box : Option Res) (v : Nat) :
-    Promise.recover f box (some v) = (if f.recoverable then (some ⟨some v, none⟩, true) else (none, false)) ∧
-    Promise.recover f box none = (none, f.recoverable) := by
+    Promise.recover f box (some v) = (if f.recoverable then (some ⟨some v, none⟩, true) else (box, false)) ∧
+    Promise.recover f box none = (if f.recoverable then none else box, f.recoverable) := by
   cases f with | mk m r l => cases m <;> cases r <;> cases l <;> exact ⟨rfl, rfl⟩
 
 /-- the laws above as one decidable table over all 8 flag combinations and a small value domain -/
@@ -375,10 +477,13 @@ theorem runMacro_reach (M : Macro σ ι) (sched order : List Nat) :
     | cons k rest ih => intro m h; exact ih _ (release_reach M m k h)
   exact this _ _ Reach.init
 
-/-- instance: the Processor and Promise runs of the driver -/
-theorem driver_runs_are_reachable (pc : Processor.Cfg) (qc : Promise.Cfg) (sched order : List Nat) :
+/-- instance: the Processor and Promise runs of the driver (the promise runs are runs of the
+    protocol with the condition variable spelled out, `Biogo.PromiseCond.fsys`; with the sleep
+    forgotten they are runs of `Biogo.Promise.sys`: `driver_promise_runs_refine` in
+    Properties/C19_cond.lean) -/
+theorem driver_runs_are_reachable (pc : Processor.Cfg) (qc : PromiseCond.FCfg) (sched order : List Nat) :
     Reach (Processor.sys pc) (runMacro (procMacro pc) sched order).st ∧
-    Reach (Promise.sys qc) (runMacro (promMacro qc) sched order).st :=
+    Reach (PromiseCond.fsys qc) (runMacro (promMacro qc) sched order).st :=
   ⟨runMacro_reach (procMacro pc) sched order, runMacro_reach (promMacro qc) sched order⟩
 
 end driver
@@ -391,29 +496,29 @@ open Biogo.Processor in
     completely while worker 1 has not yet taken its token — both see all tokens back. -/
 theorem double_close :
     ∃ sched : List Processor.Actor,
-      (run (Processor.sys { threads := 2, outCap := 0, inCap := 1, ops := [], wantClose := true, fixed := false })
-          (Processor.init { threads := 2, outCap := 0, inCap := 1, ops := [], wantClose := true, fixed := false })
+      (run (Processor.sys (Processor.Cfg.single 2 0 1 [] true false))
+          (Processor.init (Processor.Cfg.single 2 0 1 [] true false))
           sched).map (·.crashed) = some (some .doubleClose) :=
-  ⟨[.producer, .worker 0, .worker 0, .worker 0, .worker 1, .worker 1, .worker 1], by decide⟩
+  ⟨[.producer 0, .worker 0, .worker 0, .worker 0, .worker 1, .worker 1, .worker 1], by decide⟩
 
 open Biogo.Processor in
 /-- F18, second scenario (hook a): both workers have returned their tokens before either tests
     the count. -/
 theorem double_close_both_at_hook :
     ∃ sched : List Processor.Actor,
-      (run (Processor.sys { threads := 2, outCap := 0, inCap := 1, ops := [], wantClose := true, fixed := false })
-          (Processor.init { threads := 2, outCap := 0, inCap := 1, ops := [], wantClose := true, fixed := false })
+      (run (Processor.sys (Processor.Cfg.single 2 0 1 [] true false))
+          (Processor.init (Processor.Cfg.single 2 0 1 [] true false))
           sched).map (·.crashed) = some (some .doubleClose) :=
-  ⟨[.producer, .worker 0, .worker 0, .worker 1, .worker 1, .worker 0, .worker 1], by decide⟩
+  ⟨[.producer 0, .worker 0, .worker 0, .worker 1, .worker 1, .worker 0, .worker 1], by decide⟩
 
 open Biogo.Processor in
 /-- the same root cause with `Stop`: a worker that starts late sends on the closed channel -/
 theorem send_on_closed :
     ∃ sched : List Processor.Actor,
-      (run (Processor.sys { threads := 2, outCap := 1, inCap := 2, ops := [.val 1, .val 2], wantClose := false, fixed := false })
-          (Processor.init { threads := 2, outCap := 1, inCap := 2, ops := [.val 1, .val 2], wantClose := false, fixed := false })
+      (run (Processor.sys (Processor.Cfg.single 2 1 2 [.val 1, .val 2] false false))
+          (Processor.init (Processor.Cfg.single 2 1 2 [.val 1, .val 2] false false))
           sched).map (·.crashed) = some (some .sendOnClosed) :=
-  ⟨[.producer, .producer, .stopper, .worker 0, .worker 0, .worker 0, .worker 0, .collector,
+  ⟨[.producer 0, .producer 0, .stopper, .worker 0, .worker 0, .worker 0, .worker 0, .collector 0,
     .worker 1, .worker 1, .worker 1], by decide⟩
 
 open Biogo.Promise in
@@ -437,10 +542,22 @@ section examples
 open Biogo.Processor in
 /-- a complete run of the repaired Processor: 2 workers, 3 operations, unbuffered `out` -/
 example :
-    let c : Processor.Cfg := { threads := 2, outCap := 0, inCap := 1, ops := [.val 1, .err 2, .val 3], wantClose := true, fixed := true }
+    let c : Processor.Cfg := Processor.Cfg.single 2 0 1 [.val 1, .err 2, .val 3] true true
     let s := runSkip (Processor.sys c) (Processor.init c)
-      ((List.replicate 12 [Actor.producer, .worker 0, .worker 1, .collector, .waiter]).flatten)
-    s.cpc = .closedSeen ∧ s.closes = 1 ∧ s.waitReturned = true ∧ s.delivered.length = 3 ∧ s.crashed = none := by
+      ((List.replicate 12 [Actor.producer 0, .worker 0, .worker 1, .collector 0, .waiter]).flatten)
+    allSeen s = true ∧ s.closes = 1 ∧ s.waitReturned = true ∧ (allDelivered s).length = 3 ∧ s.crashed = none := by
+  decide
+
+open Biogo.Processor in
+/-- … and one with two producers and two collectors: every operation is delivered to one of the
+    collectors, both see `out` closed -/
+example :
+    let c : Processor.Cfg := { threads := 2, outCap := 0, inCap := 1, prods := [[.val 1, .err 2], [.val 3, .pan 4]],
+                               ncoll := 2, wantClose := true, fixed := true }
+    let s := runSkip (Processor.sys c) (Processor.init c)
+      ((List.replicate 14 [Actor.producer 1, .producer 0, .worker 0, .worker 1, .collector 0, .collector 1, .waiter]).flatten)
+    allSeen s = true ∧ s.closes = 1 ∧ s.waitReturned = true ∧ (allDelivered s).length = 4 ∧
+    s.crashed = none ∧ s.delivered.all (fun l => !l.isEmpty) = true := by
   decide
 
 open Biogo.Promise in
@@ -455,6 +572,11 @@ example :
 
 open Biogo.Promise in
 example : Scope { flags := ⟨false, true, false⟩, calls := [.fulfill (some 1), .wait, .fail none (some (.user 7))], fixed := true } :=
+  ⟨rfl, rfl, rfl, by decide⟩
+
+open Biogo.Promise in
+/-- nil values are inside the scope: Fulfill(nil), Fail(nil, nil) -/
+example : Scope { flags := ⟨false, false, false⟩, calls := [.fulfill none, .wait, .fail none none, .fulfill (some 1)], fixed := true } :=
   ⟨rfl, rfl, rfl, by decide⟩
 
 open Biogo.Processor in
